@@ -9,6 +9,7 @@
   sampled exhaustively on the implementation.
 -/
 import VrlProofs.Lemmas.C28Str
+import VrlProofs.Lemmas.C28Ci
 import VrlProofs.Lemmas.C28Coll
 
 namespace C28
@@ -87,7 +88,7 @@ theorem join_split_valid (s d : List Nat) (hs : isValid s = true) :
   have : lossy s = s := by simpa [isValid] using hs
   rw [h2, this]
 
-/-! ### starts_with / ends_with / contains agree with substring position (case-sensitive mode) -/
+/-! ### starts_with / ends_with / contains agree with substring position: case-sensitive mode -/
 
 theorem caseArg_sensitive (cs : Option Value) (h : cs = none ∨ cs = some (.bool true)) : caseArg cs = some true := by
   rcases h with rfl | rfl <;> rfl
@@ -113,11 +114,10 @@ theorem starts_with_spec_bytes (cm : CaseMap) (v s : List Nat) (cs : Option Valu
     (h : cs = none ∨ cs = some (.bool true)) :
     ∃ b, startsWith cm (.bytes v) (.bytes s) cs = .ok (.bool b) ∧ specStartsWith v s b = true := by
   simp only [startsWith, caseArg_sensitive cs h, startsWithBytes, if_true]
-  by_cases hl : v.length < s.length
-  · refine ⟨false, by simp [hl], ?_⟩
-    simp [specStartsWith, subAt]; omega
-  · refine ⟨s.isPrefixOf v, by simp [hl], ?_⟩
-    simp [specStartsWith, isPrefixOf_eq_subAt]
+  refine ⟨_, rfl, ?_⟩
+  rw [isPrefixOf_eq_subAt]
+  simp only [specStartsWith, subAt, Nat.zero_add, beq_iff_eq]
+  cases decide (s.length ≤ v.length) <;> simp
 
 theorem decode_append_valid (s t : List Nat) (hs : isValid s = true) :
     decodeLossy (s ++ t) = decodeLossy s ++ decodeLossy t := by
@@ -153,6 +153,70 @@ theorem starts_with_spec_partial (cm : CaseMap) (v s : List Nat) (cs : Option Va
   · rintro ⟨u, hu⟩
     refine ⟨encode u, ?_⟩
     rw [← ev, ← hu, encode_append, es]
+
+/-! ### case-insensitive mode (`case_sensitive: false`)
+
+  `ends_with` / `contains` lower-case both strings and look for the position there.  Since 2b95bd7
+  `starts_with` requires, char by char, a partner with the same lower-case expansion
+  (`starts_with_ci_charwise`); on valid UTF-8 that is the position-0 law of the lower-cased strings
+  whenever lower-casing is char-wise, one char each (`starts_with_ci_spec_partial`), and it never
+  reports a prefix the lower-cased strings do not have unless a `Σ` is involved
+  (`starts_with_ci_sound_partial`).  Outside: `witness_starts_with_ci_{invalid,sigma,expansion}`. -/
+
+theorem ends_with_ci_spec (cm : CaseMap) (v s : List Nat) :
+    ∃ b, endsWith cm (.bytes v) (.bytes s) (some (.bool false)) = .ok (.bool b) ∧
+      specEndsWith (downcaseCp cm (decodeLossy v)) (downcaseCp cm (decodeLossy s)) b = true := by
+  refine ⟨_, by simp [endsWith, caseArg, convertToString]; rfl, ?_⟩
+  simp [specEndsWith, isSuffixOf_eq_subAt]
+
+theorem contains_ci_spec (cm : CaseMap) (v s : List Nat) :
+    ∃ b, contains cm (.bytes v) (.bytes s) (some (.bool false)) = .ok (.bool b) ∧
+      specContains (downcaseCp cm (decodeLossy v)) (downcaseCp cm (decodeLossy s)) b = true := by
+  refine ⟨_, by simp [contains, caseArg, convertToString]; rfl, ?_⟩
+  simp [specContains, containsCp_eq]
+
+/-- on valid UTF-8, case-insensitive `starts_with` is exactly the char-wise comparison: every char
+    of the substring has, at the same index of the value, a char with the same complete lower-case
+    expansion (in particular the value has at least as many chars). -/
+theorem starts_with_ci_charwise (cm : CaseMap) (hcm : AsciiLower cm) (v s : List Nat)
+    (hv : isValid v = true) (hs : isValid s = true) :
+    startsWith cm (.bytes v) (.bytes s) (some (.bool false)) =
+      .ok (.bool (ciPrefix cm (decodeLossy s) (decodeLossy v))) := by
+  have ev : encode (decodeLossy v) = v := by simpa [isValid, lossy] using hv
+  have es : encode (decodeLossy s) = s := by simpa [isValid, lossy] using hs
+  have hl : (decodeLossy s).length < s.length + 1 := by
+    have := length_le_encode (decodeLossy s)
+    rw [es] at this; omega
+  have := ciAll_encode cm hcm (decodeLossy s) (decodeLossy v) (s.length + 1)
+    (decode_scalar s) (decode_scalar v) hl
+  rw [ev, es] at this
+  simp [startsWith, caseArg, startsWithBytes, this]
+
+/-- where lower-casing is char-wise and one char each (no `Σ`, no `İ`) `starts_with` obeys the
+    same law as `ends_with_ci_spec` / `contains_ci_spec`: position 0 of the lower-cased strings. -/
+theorem starts_with_ci_spec_partial (cm : CaseMap) (hcm : AsciiLower cm) (v s : List Nat)
+    (hv : isValid v = true) (hs : isValid s = true)
+    (lv : simpleLower cm (decodeLossy v) = true) (ls : simpleLower cm (decodeLossy s) = true) :
+    ∃ b, startsWith cm (.bytes v) (.bytes s) (some (.bool false)) = .ok (.bool b) ∧
+      specStartsWith (downcaseCp cm (decodeLossy v)) (downcaseCp cm (decodeLossy s)) b = true := by
+  refine ⟨_, starts_with_ci_charwise cm hcm v s hv hs, ?_⟩
+  simp only [simpleLower, Bool.and_eq_true] at lv ls
+  rw [specStartsWith, ← isPrefixOf_eq_subAt, downcaseCp_noSigma cm _ lv.1, downcaseCp_noSigma cm _ ls.1,
+    beq_iff_eq, Bool.eq_iff_iff, List.isPrefixOf_iff_prefix]
+  exact ⟨ciPrefix_sound cm _ _, ciPrefix_complete cm _ _ ls.2 lv.2⟩
+
+/-- without `Σ` a `true` of `starts_with` is a `true` of the law, multi-char lower-case
+    expansions included: the only deviation left there is a missed match (`witness_starts_with_ci_expansion`). -/
+theorem starts_with_ci_sound_partial (cm : CaseMap) (hcm : AsciiLower cm) (v s : List Nat)
+    (hv : isValid v = true) (hs : isValid s = true)
+    (nv : noSigma (decodeLossy v) = true) (ns : noSigma (decodeLossy s) = true)
+    (h : startsWith cm (.bytes v) (.bytes s) (some (.bool false)) = .ok (.bool true)) :
+    specStartsWith (downcaseCp cm (decodeLossy v)) (downcaseCp cm (decodeLossy s)) true = true := by
+  rw [starts_with_ci_charwise cm hcm v s hv hs] at h
+  simp only [R.ok.injEq, Value.bool.injEq] at h
+  rw [specStartsWith, ← isPrefixOf_eq_subAt, downcaseCp_noSigma cm _ nv, downcaseCp_noSigma cm _ ns,
+    beq_iff_eq, eq_comm, List.isPrefixOf_iff_prefix]
+  exact ciPrefix_sound cm _ _ h
 
 /-! ### truncate never yields more characters than the limit plus the suffix -/
 
